@@ -80,15 +80,16 @@ def stateful_sweep(run, pid, prefixes, escalate):
     points (replay/kalman.native_sequence); only the problems that belong to this property (by prefix) are reported."""
     from replay import kalman
 
-    variants = [(True, 3.0), (False, 3.0)] + ([(True, None), (False, 0.5)] if escalate else [])
+    # (linear model?, editing threshold, symbols declared with sympy assumptions?)
+    variants = [(True, 3.0, False), (False, 3.0, True)] + ([(True, None, True), (False, 0.5, False)] if escalate else [])
     fails = 0
-    for linear, k_edit in variants:
+    for linear, k_edit, assume in variants:
         run.native_runs += 1
-        problems, sc = kalman.native_sequence(run.seed, linear=linear, k_edit=k_edit)
+        problems, sc = kalman.native_sequence(run.seed, linear=linear, k_edit=k_edit, assumptions=assume)
         mine = [p for p in problems if p.startswith(tuple(prefixes)) or p.startswith(("constructing", "sequence raised"))]
         if mine:
             fails += 1
-            run.findings.append(Finding(f"{pid}.py.native_sequence", "stateful", f"one filter instance, {'linear' if linear else 'generic'} model, editing threshold {k_edit}: {mine[0]}", {"language": "python", "inputs": {"sequence": True, "seed": run.seed, "linear": linear, "k_edit": k_edit}, "model_definition": sc.describe(), "oracle_verdict": mine[:6]}, True))
+            run.findings.append(Finding(f"{pid}.py.native_sequence", "stateful", f"one filter instance, {'linear' if linear else 'generic'} model{' with real/positive symbols' if assume else ''}, editing threshold {k_edit}: {mine[0]}", {"language": "python", "inputs": {"sequence": True, "seed": run.seed, "linear": linear, "k_edit": k_edit, "assumptions": assume}, "model_definition": sc.describe(), "oracle_verdict": mine[:6]}, True))
             break
     run.bounded.append({"what": "stateful native sequence on ONE filter instance (two sensors of different reading dimension): Jacobians at three points with different dt, predictions at dt in {dt, 0, dt/2, 2^-40}, six alternating near/far sensor updates; each result against the exact oracle at its own inputs", "bound": f"{len(variants)} sequences (linear and generic models)", "failures": fails, "counted_as_proved": False})
     return fails
@@ -97,6 +98,6 @@ def stateful_sweep(run, pid, prefixes, escalate):
 def replay_sequence(inp):
     from replay import kalman
 
-    problems, sc = kalman.native_sequence(inp.get("seed", 0), linear=inp.get("linear", False), k_edit=inp.get("k_edit"))
+    problems, sc = kalman.native_sequence(inp.get("seed", 0), linear=inp.get("linear", False), k_edit=inp.get("k_edit"), assumptions=inp.get("assumptions", False))
     print("replay stateful sequence:", problems[:4] or "every call agrees with the oracle")
     return not problems
